@@ -166,6 +166,7 @@ def run(case) -> dict:
     hosts = case[2] if len(case) > 2 and case[2] else None      # host id per record (repeated targets)
     fails = case[3] if len(case) > 3 else 0                     # number of failing queries before the answered one
     earlier = case[4] if len(case) > 4 else None                # answer set of an earlier lookup of the same name in this process
+    earlier_dom = case[5] if len(case) > 5 else "same"            # ... or of ANOTHER name: "fqdn" (absolute, trailing dot), "none", "other"
     records = [RECORD_TYPES[i] + ((hosts[k],) if hosts else ()) for k, i in enumerate(idxs)]
     outs = {}
     calls = {}
@@ -177,10 +178,13 @@ def run(case) -> dict:
             if earlier:
                 # the DNS data changed since an earlier lookup (weights / priorities were re-balanced)
                 res.records = [RECORD_TYPES[i] for i in earlier]
+                edom = {"same": domain, "fqdn": (domain or "domain.test") + ".", "none": None, "other": "elsewhere.example"}[earlier_dom]
                 if fl == "sync":
-                    drive.classify(lambda: ddns.lookup_dc(domain))
+                    drive.classify(lambda: ddns.lookup_dc(edom))
                 else:
-                    drive.classify(lambda: drive.run_async(world, lambda: ddns.async_lookup_dc(domain)))
+                    drive.classify(lambda: drive.run_async(world, lambda: ddns.async_lookup_dc(edom)))
+                if earlier_dom != "same":
+                    probes_extra["after_lookup_of_another_name"] = 1
                 res.records = records
                 # ... and the records' TTL has run out in the meantime
                 world.clock.advance_ns((res.ttl + 5 + len(idxs)) * 1_000_000_000)
@@ -248,12 +252,12 @@ class C20(common.Check):
             "length 5 = 1.9 M exhaustively in thorough, sampled in quick), each through lookup_dc and async_lookup_dc; answers of 2..3 records in which "
             "several records name the same host (all host assignments); resolver faults (the first 1..2 queries time out or return NXDOMAIN and "
             "the caller repeats the lookup in the same process); the same name looked up twice while the answer set changed in between; bursts of 2..9 async lookups in flight at once on one "
-            "event loop and then again on a second event loop of the same process; a lookup after a call whose connection to the selected DC was refused; target host names in lower case, mixed case and with IDNA A-labels (xn--) must come back as the record spells them; records are real dnspython Answer objects whose TTL runs out between two lookups; the client host's own DNS suffix differs from the AD domain. Non-trivial = more than "
+            "event loop and then again on a second event loop of the same process; a lookup after the lookup of another name (an absolute one with trailing dot, none, another domain); a lookup after a call whose connection to the selected DC was refused; target host names in lower case, mixed case and with IDNA A-labels (xn--) must come back as the record spells them; records are real dnspython Answer objects whose TTL runs out between two lookups; the client host's own DNS suffix differs from the AD domain. Non-trivial = more than "
             "one record or a trailing-dot target; distinct = distinct (sequence, domain).")
     components = {"selection code": "real (dpapi_ng._dns lookup_dc / async_lookup_dc / _get_highest_answer)", "resolver": "stub node returning real dnspython SRV rdata",
                   "async runtime": "simulated loop"}
     assumptions = ["no DNS wire format is simulated: dnspython is a dependency, not the system under test", "ties between equal (priority, weight) records are not judged beyond sync == async"]
-    required_fired = ("trailing_dot", "relative_target", "ties", "dns_reorder", "repeated_target", "after_resolver_fault", "dns_fault", "after_earlier_lookup", "async_bursts", "after_connection_failure", "idna_a_label_target", "mixed_case_target")
+    required_fired = ("trailing_dot", "relative_target", "ties", "dns_reorder", "repeated_target", "after_resolver_fault", "dns_fault", "after_earlier_lookup", "async_bursts", "after_connection_failure", "idna_a_label_target", "mixed_case_target", "after_lookup_of_another_name")
 
     def exhaustive(self, tier):
         return True
@@ -284,6 +288,9 @@ class C20(common.Check):
             a = [rng0.randrange(n) for _ in range(rng0.randint(1, 4))]
             b_ = [rng0.randrange(n) for _ in range(len(a))] if rng0.random() < 0.7 else [rng0.randrange(n) for _ in range(rng0.randint(1, 4))]
             out.append([b_, rng0.choice(("corp.example", None)), None, 0, a])
+            if rng0.random() < 0.4:
+                # ... or another name was looked up before (an absolute one with its trailing dot, none at all, another domain)
+                out[-1].append(rng0.choice(("fqdn", "fqdn", "none", "other")))
         # a call that found its DC through DNS could not connect to it; then the same name is looked up again
         for _ in range(300 if tier == "quick" else 8000):
             out.append(["unreach", [rng0.randrange(n) for _ in range(rng0.randint(2, 4))], rng0.choice(("corp.example", None))])
